@@ -14,7 +14,7 @@ RULE = ('segment pairs of all 9 kind pairs (line/quadratic/cubic x line/quadrati
         'identical, reversed copy, collinear-overlapping, degenerate (zero-length operand); reference = dense 200x200 sampling of both operands + '
         'coordinate-descent refinement (true minimum) and the control-polygon diameter bound (greatest distance); non-trivial = both operands of '
         'positive length')
-NOT_PROVED = ['termination of the recursion within the fuel / CPython recursion limit for every input (the model returns OutOfFuel; watched by the search)',
+NOT_PROVED = ['termination: PROVED over the reals (Proofs/C20term.v: for every pair of segments the recursion never nests deeper than 76 levels -- the selected split index is level-independent and never (0,0), so the product of the interval widths shrinks by 5/6 per level and must stay above 1e-6 -- hence curveDistance with fuel >= 80 returns Ok and more fuel does not change the result; the hypothesis D(0,0) = S(0,0) is necessary: termination_needs_D00); for binary64 only fuel-monotonicity and concrete runs are proved, the float recursion depth is watched by the search',
               'accuracy of the float S(u,v) for operands at distance 0 (rounding can leave it slightly below zero; curveDistance clamps it with '
               'max(dist, 0.0) since the fix 73d2744, and clamp_not_below shows math.sqrt then cannot raise): the float result is only '
               'compared with references by the search',
@@ -132,7 +132,7 @@ def rseg(rng, k, ints, lo=-300, hi=300):
     return gen.KINDS[k](*[rpt(rng, ints, lo, hi) for _ in range(k)])
 
 
-MODES = ['disjoint', 'touch-end', 'touch-mid', 'cross', 'shared-start', 'identical', 'reversed', 'overlap', 'degenerate', 'near']
+MODES = ['disjoint', 'touch-end', 'touch-mid', 'cross', 'shared-start', 'identical', 'reversed', 'overlap', 'degenerate', 'near', 'far-gap']
 
 
 def seg_pair(rng, k1, k2, ints, mode):
@@ -164,6 +164,21 @@ def seg_pair(rng, k1, k2, ints, mode):
         sh = a.pointAtTime(rng.choice([0.5, rng.random()])) - b.pointAtTime(rng.choice([0.5, rng.random()]))
         if ints: sh = P(round(sh.x), round(sh.y))
         b = gen.KINDS[k2](*[q + sh for q in b.points])
+    elif mode == 'far-gap':
+        # disjoint operands far from the origin whose gap is small relative to their coordinates (0.003..0.04 units at ~1000..3000)
+        off = P(rng.uniform(800, 3000) * rng.choice([1, -1]), rng.uniform(800, 3000) * rng.choice([1, -1]))
+        g = rng.uniform(0.003, 0.04)
+        if k1 == 2 or rng.random() < 0.5:
+            a = Line(rpt(rng, False) + off, rpt(rng, False) + off)
+            d = a[1] - a[0]; L = d.magnitude or 1.0; nrm = P(-d.y / L, d.x / L)
+            b = Line(a[0] + nrm * g + d * rng.uniform(0.0, 0.3), a[1] + nrm * g - d * rng.uniform(0.0, 0.3))
+            if k2 == 4: b = CubicBezier(b[0], b[0].lerp(b[1], 1 / 3.0), b[0].lerp(b[1], 2 / 3.0), b[1])
+        else:
+            # an arch standing g above a straight piece
+            x0 = off.x; y0 = off.y; w = rng.uniform(50, 300)
+            b = Line(P(x0, y0), P(x0 + w, y0)) if k2 == 2 else CubicBezier(P(x0, y0), P(x0 + w / 3, y0), P(x0 + 2 * w / 3, y0), P(x0 + w, y0))
+            h = rng.uniform(20, 100)
+            a = QuadraticBezier(P(x0 + 0.1 * w, y0 + g + h), P(x0 + 0.5 * w, y0 + g - h), P(x0 + 0.9 * w, y0 + g + h))   # vertex at height y0 + g
     elif mode == 'near':
         b = rseg(rng, k2, ints)
         sh = a.pointAtTime(rng.random()) - b.pointAtTime(rng.random()) + P(rng.uniform(-3, 3), rng.uniform(-3, 3))
